@@ -17,6 +17,7 @@ import (
 	"verif/sim/internal/eng"
 	"verif/sim/internal/engines/chain"
 	"verif/sim/internal/engines/conc"
+	"verif/sim/internal/engines/rw"
 	"verif/sim/internal/sched"
 	"verif/sim/internal/shrink"
 	"verif/sim/internal/tape"
@@ -28,6 +29,7 @@ import (
 var engines = map[string]eng.Engine{
 	"conc":  conc.Engine{},
 	"chain": chain.Engine{},
+	"rw":    rw.Engine{},
 }
 
 // ReplayFile is the on-disk form of one (minimised) failing run.
@@ -180,7 +182,7 @@ func batch(args []string) {
 	deadline := start.Add(*budget)
 	idx := *from
 	for k := 0; k < *n; k++ {
-		if k&7 == 0 && time.Now().After(deadline) {
+		if time.Now().After(deadline) {
 			break
 		}
 		if mf != nil {
@@ -277,7 +279,7 @@ func record(e eng.Engine, master, idx, rs uint64, t *tape.Tape, v eng.Violation,
 		}
 		return true, shrink.Rec(tt.Record()), tt.Spans()
 	}
-	best, attempts := shrink.Shrink(rec, t.Spans(), shrinkOrder, test, 600, time.Now().Add(60*time.Second))
+	best, attempts := shrink.Shrink(rec, t.Spans(), shrinkOrder, test, 500, time.Now().Add(30*time.Second))
 	tt := tape.Replay(rs, best)
 	r := e.Run(tt, eng.Opts{Trace: true})
 	fv := hasClass(r, class)
